@@ -1,0 +1,5 @@
+//go:build !verif
+
+package rueidis
+
+func verifPipeGap(string) {}
